@@ -19,11 +19,12 @@ with_demo=$(go test -vet=off -count=1 -run 'SeedDemo' $dpkg 2>&1 | grep -E "^(ok
 git stash -q -- $(git diff --name-only)
 without_demo=$(go test -vet=off -count=1 -run 'SeedDemo' $dpkg 2>&1 | grep -E "^(ok|FAIL)" | head -1)
 git stash pop -q
-# apply to /repo and run the check
-cd /repo && git apply $out/patch.diff || { echo "patch does not apply to /repo"; exit 2; }
-cd /verif && ./check $id --tier quick > $out/check_output.txt 2>&1; code=$?
-git -C /repo checkout -- . ; git -C /repo status --short
-git -C /verif checkout -- evidence 2>/dev/null
+# run the check against the scratch worktree (which has the change applied); the patch must
+# also apply cleanly to /repo's HEAD. Evidence goes to a scratch directory.
+(cd /repo && git apply --check $out/patch.diff) || { echo "patch does not apply to /repo"; exit 2; }
+scratch=$(mktemp -d /tmp/seedout-XXXX)
+cd /verif && ./check $id --tier quick --repo $wt --out $scratch > $out/check_output.txt 2>&1; code=$?
+rm -rf $scratch
 python3 - "$id" "$name" "$code" "$with_existing" "$with_demo" "$without_demo" <<'PY'
 import json,sys
 id,name,code,we,wd,wod=sys.argv[1:7]
